@@ -126,8 +126,9 @@ def lock_order(ctx, rid, floor=2):
     implicit = {}
     for a in L.acqs:
         if a.kind == "reader":
-            wl = a.lock.replace(".readers", ".write_mutex")
-            implicit.setdefault(wl, set()).add(a.lock)
+            for wl, rl in L.reader_lock_of.items():
+                if rl == a.lock:
+                    implicit.setdefault(wl, set()).add(a.lock)
     edges = {}
     witnesses = {}
     for (mid, lock), reg in L.regions.items():
